@@ -203,6 +203,44 @@ def _lr_loop_by_disambiguation(v, ctx):
     return eps or mci
 
 
+def _rn_indirect_nullable_tail(v, ctx):
+    """Signature of C11-F1, a syntactic predicate on the grammar text of the case: some
+    production has a nullable tail (all symbols from some position >= 0 on nullable) that
+    contains a non-terminal WITHOUT an EMPTY alternative of its own (nullable only through
+    other rules), so its AST type is neither Option<..> nor Vec<..>."""
+    text = ctx.grammar(v["stage"], v["id"])
+    rules = {}
+    for line in text.split("terminals")[0].split(";"):
+        line = line.strip()
+        if ":" not in line or line.startswith("@"):
+            line = line.split("\n")[-1] if ":" in line else ""
+        if ":" not in line:
+            continue
+        name, body = line.split(":", 1)
+        name = name.split("{")[0].strip().split()[-1]
+        alts = []
+        for a in body.split("|"):
+            a = a.split("{")[0].strip()
+            alts.append([x for x in a.split() if x != "EMPTY"])
+        rules.setdefault(name, []).extend(alts)
+    nullable = set()
+    changed = True
+    while changed:
+        changed = False
+        for n, alts in rules.items():
+            if n not in nullable and any(all(x in nullable for x in a) for a in alts):
+                nullable.add(n)
+                changed = True
+    direct = {n for n, alts in rules.items() if any(len(a) == 0 for a in alts)}
+    for n, alts in rules.items():
+        for a in alts:
+            for d in range(0, len(a)):
+                tail = a[d:]
+                if all(x in nullable for x in tail) and any(x not in direct for x in tail):
+                    return True
+    return False
+
+
 def known_match(prop, v, ctx):
     """Returns the finding id if the violation matches a committed signature."""
     for f in run.load_known().get("findings", []):
@@ -223,7 +261,10 @@ def known_match(prop, v, ctx):
         if "min_solutions" in sig and not (v.get("n") or 0) >= sig["min_solutions"]:
             continue
         pred = sig.get("pred")
-        if pred == "lr_loop_by_disambiguation":
+        if pred == "rn_indirect_nullable_tail":
+            if not ("algo=glr" in v["id"] or "tt=rn" in v["id"]) or not _rn_indirect_nullable_tail(v, ctx):
+                continue
+        elif pred == "lr_loop_by_disambiguation":
             if not _lr_loop_by_disambiguation(v, ctx):
                 continue
         elif pred and not stages.PREDICATES[pred](v, ctx):
